@@ -368,6 +368,15 @@ def make_textpath_models():
     def m_with_extension(ex, st, args, callee, ty):
         return PathBufT(with_extension_text(ex, st, text_of(ex, st, args[0]), text_of(ex, st, args[1])))
 
+    def m_starts_with(ex, st, args, callee, ty):
+        """Path::starts_with / ends_with: component-wise prefix / suffix"""
+        a = [t[0] for t in tokenize(ex, st, text_of(ex, st, args[0]))]
+        b = [t[0] for t in tokenize(ex, st, text_of(ex, st, args[1]))]
+        if len(b) > len(a):
+            return B(False)
+        part = a[:len(b)] if "starts_with" in callee else a[len(a) - len(b):]
+        return b_and(*[tcomp_eq(x, y) for x, y in zip(part, b)]) if b else B(True)
+
     def m_to_str(ex, st, args, callee, ty):
         return opt_some(ex, BoxRef(SStr(text_of(ex, st, args[0]))))
 
@@ -455,6 +464,7 @@ def make_textpath_models():
         (rx(r"^Path::file_name$"), m_file_name),
         (rx(r"^Path::extension$"), m_extension),
         (rx(r"^Path::file_stem$"), m_file_stem),
+        (rx(r"^Path::(starts_with|ends_with)::<.*>$"), m_starts_with),
         (rx(r"^Path::to_str$"), m_to_str),
         (rx(r"^OsStr::to_str$"), m_to_str),
         (rx(r"^Path::has_root$"), m_has_root),
